@@ -904,9 +904,24 @@ package rosmar
 //@   ensures [C12:PutDDoc.views-never-updated-in-place] stmtCount("update", "views") == 0 && stmtCount("upsert", "views") == 0 && stmtCount("update", "designDocs") == 0 && stmtCount("upsert", "designDocs") == 0
 //@   ensures [C20:PutDDoc.unlocked] any: nolocks()
 //@
+// A view query re-indexes first unless the index is already at the collection's mark or the caller allowed staleness.
+//@ fn (*Collection).getLastCas
+//@   modular in=view
+//@   variant tx q=tx
+//@   variant pool q=pool
+//@   ensures [C12:getLastCas.reads-collection-mark] err == nil ==> cas == collLast(c.id)
+//@   ensures [C12:getLastCas.frame] db == old(db)
+//@ fn (*Collection).view
+//@   ensures [C12:view.compares-with-current-mark] count("call:Collection.getViewRows") == 1 ==> count("call:Collection.findView") == 1 && count("call:Collection.getLastCas") == 1 && callarg("Collection.findView", 0) == c && callarg("Collection.findView", 3) == designDoc && callarg("Collection.findView", 4) == viewName && callarg("Collection.getLastCas", 0) == c
+//@   ensures [C12:view.fresh-by-default] count("call:Collection.getViewRows") == 1 && !haskey(jsonParams, "stale") && callretval("Collection.findView", 0).lastCas != callret("Collection.getLastCas", 0) ==> count("call:Collection.updateView") == 1 && callpos("Collection.updateView") < callpos("Collection.getViewRows") && callarg("Collection.getViewRows", 1) == callret("Collection.updateView", 0) && callarg("Collection.updateView", 2) == designDoc && callarg("Collection.updateView", 3) == viewName && callarg("Collection.updateView", 0) == c
+//@   ensures [C12:view.no-reindex-when-current] count("call:Collection.getViewRows") == 1 && callretval("Collection.findView", 0).lastCas == callret("Collection.getLastCas", 0) ==> count("call:Collection.updateView") == 0 && callarg("Collection.getViewRows", 1) == callret("Collection.findView", 0)
+//@   ensures [C11,C12:view.reads-own-collection] count("call:Collection.getViewRows") == 1 ==> callarg("Collection.getViewRows", 0) == c
+//@   ensures [C20:view.unlocked] any: nolocks()
+//@
 // The view read-out: one SELECT over this view's index rows joined with their documents, ordered by emitted key and
 // then document id (both descending when asked), optionally limited. Collation of the keys is SQLite's (not reached).
 //@ fn (*Collection).getViewRows
+//@   modular in=view
 //@   requires view != nil && params != nil
 //@   loop 1 invariant [C12:getViewRows.rows-loop] true
 //@   ensures [C12:getViewRows.one-select]   count("sql") <= 1 && (err == nil ==> cursorCount() == 1)
@@ -917,6 +932,9 @@ package rosmar
 //@   ensures [C20:getViewRows.unlocked]     any: nolocks()
 //@
 //@ fn (*Collection).updateView
+//@   modular in=view
+//@   flag modifies=db
+//@   ensures [C12:updateView.result] err == nil ==> view != nil
 //@   let v = callretval("Collection.findView", 0)
 //@   loop 1001 invariant [C12:updateView.rows-loop] true
 //@   loop 1002 invariant [C12:updateView.row-loop] true
